@@ -1022,6 +1022,12 @@ where
 
     #[inline]
     async fn read_struct_end(&mut self) -> Result<(), ThriftException> {
+        self.last_read_field_id = self.read_field_id_stack.pop().ok_or_else(|| {
+            new_protocol_exception(
+                ProtocolExceptionKind::InvalidData,
+                "ReadStructEnd called without matching ReadStructBegin",
+            )
+        })?;
         Ok(())
     }
 
@@ -1569,6 +1575,12 @@ impl TInputProtocol for TCompactInputProtocol<&mut Bytes> {
 
     #[inline]
     fn read_struct_end(&mut self) -> Result<(), ThriftException> {
+        self.last_read_field_id = self.read_field_id_stack.pop().ok_or_else(|| {
+            new_protocol_exception(
+                ProtocolExceptionKind::InvalidData,
+                "ReadStructEnd called without matching ReadStructBegin",
+            )
+        })?;
         Ok(())
     }
 
